@@ -1,8 +1,8 @@
 SPECIFICATION Spec
 CONSTANTS Tunings = {"default", "a1", "a1k3", "a05", "a01", "a1k0"} MaxGroup = 1 PermSet = "all"
-CONSTANT KindSets <- KindSetsThorough
-CONSTANT Placements <- PlacementsThorough
-CONSTANT SubPatterns <- SubsThorough
+CONSTANT KindSets <- KindSetsMid
+CONSTANT Placements <- PlacementsMid
+CONSTANT SubPatterns <- SubsMid
 CONSTANT TurnVals <- TurnsThorough
 INVARIANT PosteriorIsBasePosterior
 INVARIANT InnovationInRange
